@@ -41,33 +41,207 @@ Definition rk0 (s : tstate) : nat :=
 Definition rk (s v : tstate) : nat := match s with S_eatws => S (rk0 v) | _ => rk0 s end.
 Definition mu (t : tok) : nat := match stack t with top :: _ => rk (s_state top) (s_saved top) | [] => 0%nat end.
 
+Lemma top_set_top t s : top (set_top t s) = s. Proof. unfold top. rewrite stack_set_top. reflexivity. Qed.
+Lemma top_set_pb t s : top (set_pb t s) = top t. Proof. reflexivity. Qed.
+Lemma top_set_is_double t s : top (set_is_double t s) = top t. Proof. reflexivity. Qed.
+Lemma top_set_st_pos t s : top (set_st_pos t s) = top t. Proof. reflexivity. Qed.
+Lemma top_set_ucs t s : top (set_ucs t s) = top t. Proof. reflexivity. Qed.
+Lemma top_set_high t s : top (set_high t s) = top t. Proof. reflexivity. Qed.
+Lemma top_set_quote t s : top (set_quote t s) = top t. Proof. reflexivity. Qed.
+Lemma top_set_err t s : top (set_err t s) = top t. Proof. reflexivity. Qed.
+Lemma top_append t s : top (append t s) = top t. Proof. reflexivity. Qed.
+Lemma top_set_state t s : top (set_state t s) = mksrec s (s_saved (top t)) (s_cur (top t)) (s_name (top t)).
+Proof. unfold set_state. apply top_set_top. Qed.
+Lemma top_value_done t v : top (value_done t v) = mksrec S_eatws S_finish v (s_name (top t)).
+Proof. unfold value_done. apply top_set_top. Qed.
+Lemma sv_top t : sv t = s_saved (top t). Proof. reflexivity. Qed.
+Lemma st_top t : st t = s_state (top t). Proof. reflexivity. Qed.
+Global Hint Rewrite top_set_top top_set_pb top_set_is_double top_set_st_pos top_set_ucs top_set_high top_set_quote
+  top_set_err top_append top_set_state top_value_done : tokstk.
+
+Definition wfs (stk : list srec) : bool :=
+  match stk with
+  | top :: below => wf_top (s_state top) (s_saved top) && forallb (fun r => add_like (s_state r)) below
+  | [] => false
+  end.
+Definition mus (stk : list srec) : nat := match stk with top :: _ => rk (s_state top) (s_saved top) | [] => 0%nat end.
+Lemma wfb_wfs t : wfb t = wfs (stack t). Proof. reflexivity. Qed.
+Lemma mu_mus t : mu t = mus (stack t). Proof. reflexivity. Qed.
+
+(* result classes of one dispatch, as a proposition about the new stack *)
+Definition res_ok (t : tok) (r : sres) : Prop :=
+  match r with
+  | Consumed t' _ => wfs (stack t') = true
+  | Redo t' _ => wfs (stack t') = true /\ (mus (stack t') < mus (stack t))%nat
+  | Out t' _ => wfs (stack t') = true
+  end.
+
+Lemma emit_res t0 t u l top0 below :
+  stack t0 = top0 :: below -> stack t = stack t0 -> esc_like (s_state top0) = true ->
+  wfs (stack t0) = true -> res_ok t0 (emit_unicode t u l).
+Proof.
+  intros E H Hs Hw. unfold emit_unicode.
+  assert (Hsv : sv t = s_saved top0) by (unfold sv, top; rewrite H, E; reflexivity).
+  assert (Htop : top t = top0) by (unfold top; rewrite H, E; reflexivity).
+  rewrite E in Hw. cbn [wfs] in Hw. apply andb_true_iff in Hw. destruct Hw as [Hw Hb].
+  unfold wf_top in Hw. rewrite Hs in Hw. apply andb_true_iff in Hw. destruct Hw as [_ Hw].
+  repeat match goal with |- context [if ?b then _ else _] => destruct b end; cbn [res_ok];
+    autorewrite with tokstk; rewrite ?Htop, ?Hsv, ?H, ?E; cbn [tl wfs s_state s_saved];
+    rewrite Hb, ?andb_true_r; destruct (s_saved top0); try discriminate Hw; reflexivity.
+Qed.
+
+Lemma finish_unicode_res t0 t l top0 below :
+  stack t0 = top0 :: below -> stack t = stack t0 -> esc_like (s_state top0) = true -> wfs (stack t0) = true ->
+  res_ok t0 (finish_unicode t l).
+Proof.
+  intros E H Hs Hw. unfold finish_unicode. eapply emit_res; eauto.
+  rewrite stack_resolve. autorewrite with tokstk. exact H.
+Qed.
+
+Lemma aw_wf v : after_ws v = true -> wf_top v v = true /\ rk v v = rk0 v.
+Proof. destruct v; try discriminate; intros _; split; reflexivity. Qed.
+Lemma sl_wf v : str_like v = true -> wf_top v v = true /\ rk v v = 0%nat.
+Proof. destruct v; try discriminate; intros _; split; reflexivity. Qed.
+
 Section S.
 Variable sb : list byte -> Z.
 
-Lemma step1_wf_mu t l :
-  wf_tok t ->
-  match step1 sb t l with
-  | Consumed t' _ => wf_tok t'
-  | Redo t' _ => wf_tok t' /\ (mu t' < mu t)%nat
-  | Out _ _ => True
-  end.
+Lemma step1_res t l : wfs (stack t) = true -> res_ok t (step1 sb t l).
 Proof.
-  unfold wf_tok. destruct t as [stk md p dbl sp uc hs qc sf af vf off e].
-  destruct stk as [|[s v cur nm] below]; [discriminate|].
-  unfold wfb, mu; cbn [stack s_state s_saved]. intros H. apply andb_true_iff in H. destruct H as [Ht Hb].
-  destruct s; unfold step1, st, sv, top; cbn [stack s_state s_saved s_cur s_name].
-  all: try (destruct v; try discriminate Ht).
-  all: unfold fail, finish_unicode, emit_unicode, resolve_pair, value_done, set_state, set_saved, set_top, append,
-         set_pb, set_st_pos, set_quote, set_is_double, set_ucs, set_high, set_stack, set_err, sv, st, top, depth;
-       cbn [stack max_depth pb is_double st_pos ucs_char high_surrogate quote_char strict allow_trailing
-            validate_utf8 char_offset err s_state s_saved s_cur s_name fst snd].
+  intros Hw. destruct (stack t) as [|[s v cur nm] below] eqn:E; [discriminate|].
+  assert (Htop : top t = mksrec s v cur nm) by (unfold top; rewrite E; reflexivity).
+  assert (Hst : st t = s) by (unfold st; rewrite Htop; reflexivity).
+  assert (Hsv : sv t = v) by (unfold sv; rewrite Htop; reflexivity).
+  pose proof Hw as Hw0. cbn [wfs s_state s_saved] in Hw. apply andb_true_iff in Hw. destruct Hw as [Ht Hb].
+  unfold step1. rewrite Hst.
+  destruct s; cbv iota; unfold fail.
   all: repeat match goal with
+              | |- res_ok _ (finish_unicode _ _) => fail 1
               | |- context [if ?b then _ else _] => destruct b
               | |- context [match classify_number ?a ?x with _ => _ end] => destruct (classify_number a x)
               | |- context [match lnum ?x with _ => _ end] => destruct (lnum x)
-              | |- context [match below with _ => _ end] => destruct below as [|[ps pv pc pn] below']
-              end;
-       cbn [stack s_state s_saved fst snd forallb wf_top ws_like esc_like after_ws str_like add_like andb rk rk0] in *;
-       try exact I; try (split; [|lia]); try reflexivity; try assumption.
+              | |- context [match stack ?x with _ => _ end] => rewrite E
+              | |- context [match ?y with [] => _ | _ :: _ => _ end] => destruct y as [|[ps pv pc pn] below2]
+              end; cbn [res_ok].
+  all: try (eapply finish_unicode_res; [exact E|autorewrite with tokstk; reflexivity|reflexivity|rewrite E; exact Hw0]).
+  all: autorewrite with tokstk; rewrite ?Htop, ?Hsv, ?E; unfold fresh_level;
+       cbn [tl wfs mus s_state s_saved s_cur s_name forallb] in *;
+       cbn [wf_top ws_like esc_like after_ws str_like add_like andb rk rk0 negb] in *;
+       rewrite ?andb_true_r in *; rewrite ?Hb, ?andb_true_r.
+  all: try reflexivity; try (split; [reflexivity|lia]); try assumption.
+  all: try (destruct (aw_wf v Ht) as [A B]; rewrite ?A, ?B; first [reflexivity | split; [reflexivity|lia]]).
+  all: try (destruct (sl_wf v Ht) as [A B]; rewrite ?A, ?B; first [reflexivity | split; [reflexivity|lia]]).
+  all: try (split; [exact Ht|lia]).
+  - (* eatws hands over to the saved state *)
+    assert (Hv : after_ws v = true) by (unfold wf_top in Ht; cbn [ws_like esc_like] in Ht; rewrite andb_true_r in Ht; exact Ht).
+    destruct (aw_wf v Hv) as [A B]. rewrite A, B. split; [reflexivity|lia].
+  - (* finish pops to the parent, which is in one of the two add states *)
+    apply andb_true_iff in Hb. destruct Hb as [Hp Hb']. rewrite Hb'.
+    destruct (s_state s); try discriminate Hp; cbn; split; try reflexivity; lia.
+Qed.
+
+Lemma mus_bound stk : (mus stk <= 10)%nat.
+Proof. destruct stk as [|[s v c n] r]; cbn; [lia|]. destruct s; cbn; try lia; destruct v; cbn; lia. Qed.
+
+Lemma redo_total fuel : forall t l,
+  wfs (stack t) = true -> (mus (stack t) < fuel)%nat ->
+  exists r, redo sb fuel t l = Some r /\ wfs (stack (sres_tok r)) = true /\ (forall t' l', r <> Redo t' l').
+Proof.
+  induction fuel as [|f IH]; intros t l Hw Hm; [lia|]. cbn [redo].
+  pose proof (step1_res t l Hw) as R.
+  destruct (step1 sb t l) as [t' l'|t' l'|t' l'] eqn:S; cbn [res_ok] in R.
+  - eexists. split; [reflexivity|]. split; [exact R|]. intros; discriminate.
+  - destruct R as [R1 R2]. apply IH; [exact R1|lia].
+  - eexists. split; [reflexivity|]. split; [exact R|]. intros; discriminate.
+Qed.
+
+Theorem redo_fuel_sufficient t l : wf_tok t -> exists r, redo sb REDO_FUEL t l = Some r.
+Proof.
+  intros H. destruct (redo_total REDO_FUEL t l H) as (r & Hr & _).
+  - pose proof (mus_bound (stack t)). unfold REDO_FUEL. lia.
+  - eauto.
+Qed.
+
+Lemma run_total bytes : forall t l, wfs (stack t) = true ->
+  exists t' l', run sb bytes t l = LOut t' l' /\ wfs (stack t') = true.
+Proof.
+  induction bytes as [|b rest IH]; intros t l Hw; cbn [run].
+  - eexists _, _. split; [reflexivity|exact Hw].
+  - destruct (if validate_utf8 t then validate_utf8_step b (nbytes l) else Some (nbytes l)) as [nb|].
+    2:{ eexists _, _. split; [reflexivity|exact Hw]. }
+    destruct (redo_total REDO_FUEL t (mkloc b nb (lobj l) (lnum l)) Hw) as (r & Hr & Hwr & Hnr).
+    { pose proof (mus_bound (stack t)). unfold REDO_FUEL. lia. }
+    rewrite Hr. destruct r as [t1 l1|t1 l1|t1 l1]; cbn [sres_tok] in Hwr.
+    + destruct (b =? 0).
+      * eexists _, _. split; [reflexivity|exact Hwr].
+      * apply IH. exact Hwr.
+    + exfalso. eapply Hnr. reflexivity.
+    + eexists _, _. split; [reflexivity|exact Hwr].
+Qed.
+
+(* a call from a well-formed state always produces an outcome; the state stays well formed
+   except in one corner: a success reported at depth > 0 (a NUL byte inside a comment that
+   follows a complete value inside a container), after which the parser must be reset *)
+Theorem parse_total t bytes :
+  wf_tok t -> exists t' r, parse_ex sb t bytes = PR t' r /\
+                          (err t' <> TE_success \/ depth t' = 0 -> wf_tok t').
+Proof.
+  intros H. unfold parse_ex.
+  destruct (run_total bytes (set_err (set_off t 0) TE_success) (mkloc 1 0 JNull None) H) as (t1 & l1 & -> & Hw1).
+  unfold finish_call.
+  match goal with |- context [if ?b then set_err ?x TE_utf8 else _] => set (ta := if b then set_err x TE_utf8 else x);
+    assert (Ha : stack ta = stack t1) by (subst ta; destruct b; reflexivity) end.
+  match goal with |- context [if ?b then set_err ?x TE_unexpected else _] => set (tb := if b then set_err x TE_unexpected else x);
+    assert (Hb : stack tb = stack ta) by (subst tb; destruct b; reflexivity) end.
+  match goal with |- context [if ?b then set_err ?x TE_eof else _] => set (tc := if b then set_err x TE_eof else x);
+    assert (Hc : stack tc = stack tb) by (subst tc; destruct b; reflexivity) end.
+  assert (Hwc : wfs (stack tc) = true) by (rewrite Hc, Hb, Ha; exact Hw1).
+  destruct (err tc) eqn:Ee; eexists _, _; (split; [reflexivity|]); intros Hcond; try exact Hwc.
+  (* success: all levels are reset; well formed when only one level remains *)
+  destruct Hcond as [Hcond|Hcond]; [exfalso; apply Hcond; exact Ee|].
+  unfold wf_tok, wfb, reset_levels, depth in *. cbn [stack set_stack] in *.
+  rewrite zlen_map in Hcond. destruct (stack tc) as [|s0 [|s1 r]]; cbn [zlen map] in *; try reflexivity.
+  - discriminate.
+  - pose proof (zlen_nonneg r). lia.
 Qed.
 End S.
+
+(* reset *)
+Lemma reset_levels_as_new t :
+  stack (tok_reset t) = [fresh_level] /\ err (tok_reset t) = TE_success /\ cfg0 (tok_reset t) = cfg0 t.
+Proof. repeat split. Qed.
+Lemma tok_reset_wf t : wf_tok (tok_reset t). Proof. reflexivity. Qed.
+Lemma tok_new_wf d s a v t : tok_new d s a v = Some t -> wf_tok t.
+Proof. unfold tok_new. destruct (d <? 1); [discriminate|]. intros H; inversion H. reflexivity. Qed.
+
+(* the corner named in parse_total exists: the C string  [1 slash star  is reported as success
+   with the value 1 while one level is still open *)
+Lemma success_at_depth_pos_witness :
+  exists t t' v, tok_new 32 false false false = Some t /\
+    parse_ex_cstr (fun _ => 0) t [91;49;32;47;42] = PR t' (Some v) /\ v = JInt 1 /\ depth t' = 1.
+Proof. eexists _, _, _. split; [reflexivity|]. vm_compute. repeat split. Qed.
+
+(* reset: examples where the fields that reset leaves alone are stale, evaluated inside Coq:
+   (1) an abandoned string ending in the escape ud800, then reset, then the string u0041 gives A,
+       as a new parser does;
+   (2) an abandoned number 12, then reset, then true gives true *)
+Definition two_calls (first second : list byte) : option (terr * option jv) :=
+  match tok_new 32 false false false with
+  | Some t => match parse_ex (fun _ => 0) t first with
+              | PR t1 _ => match parse_ex (fun _ => 0) (tok_reset t1) second with
+                           | PR t2 r => Some (err t2, r) | PRFuel => None end
+              | PRFuel => None end
+  | None => None
+  end.
+Definition fresh_call (second : list byte) : option (terr * option jv) :=
+  match tok_new 32 false false false with
+  | Some t => match parse_ex (fun _ => 0) t second with PR t2 r => Some (err t2, r) | PRFuel => None end
+  | None => None
+  end.
+Definition reset_examples_ok : bool :=
+  match two_calls [34;92;117;100;56;48;48] [34;92;117;48;48;52;49;34;32], fresh_call [34;92;117;48;48;52;49;34;32] with
+  | Some (TE_success, Some (JStr [65])), Some (TE_success, Some (JStr [65])) => true | _, _ => false end &&
+  match two_calls [49;50] [116;114;117;101;32], fresh_call [116;114;117;101;32] with
+  | Some (TE_success, Some (JBool true)), Some (TE_success, Some (JBool true)) => true | _, _ => false end.
+Lemma reset_examples : reset_examples_ok = true.
+Proof. vm_compute. reflexivity. Qed.
